@@ -34,8 +34,6 @@ SHAPE_KEYS: set[tuple[str, str]] = {
     ("C23.R3", "ops-between-phis"),
     ("C24.R3", "entry-init"),
     ("C24.R3", "others-init"),
-    ("C25.R3", "results-without-dependency"),
-    ("C25.R4", "initialize"),
     ("C29.R1", "descent-without-table-check"),
     ("C29.R1", "private-check-wrong-op"),
     ("C29.R2", "advance"),
